@@ -81,6 +81,43 @@ func (g *gen) clientHist(depth int) {
 		}
 		rec(0)
 	}
+	// L2: the first retransmission's Write blocks; meanwhile up to two other events; then the Write returns
+	for _, c := range []cfg{{2, 0, 1}, {3, 1, 0}, {1, 0, 0}} {
+		mid := []func(hn *int){
+			func(hn *int) { g.emit("CL deliver %s", showHex(respFor(ids[0], 1))) },
+			func(hn *int) { g.emit("CL deliver %s", showHex([]byte{0, 1, 2, 3, 4, 5})) },
+			func(hn *int) { g.emit("CL start %s %s %d", showHex(ids[1]), showHex(reqFor(ids[1], 28, 1)), *hn); *hn++ },
+			func(hn *int) { g.emit("CL deliver %s", showHex(respFor(ids[1], 1))) },
+			func(hn *int) { g.emit("CL failwrite %s", showHex(ids[1])) },
+		}
+		var seqs [][]int
+		seqs = append(seqs, nil)
+		for a := range mid {
+			seqs = append(seqs, []int{a})
+			for b := range mid {
+				seqs = append(seqs, []int{a, b})
+			}
+		}
+		for _, sq := range seqs {
+			for _, rel := range []string{"ok", "fail"} {
+				g.caseMark("client-l2", cnt)
+				cnt++
+				g.emit("CL new 100 %d %d %d 0 0", c.att, c.noclose, c.fb)
+				hn := 2
+				g.emit("CL start %s %s 1", showHex(ids[0]), showHex(reqFor(ids[0], 28, 1)))
+				g.emit("CL blockwrite %s", showHex(ids[0]))
+				g.emit("CL tick2 101")
+				for _, i := range sq {
+					mid[i](&hn)
+				}
+				g.emit("CL release %s", rel)
+				g.emit("CL start %s %s %d", showHex(ids[0]), showHex(reqFor(ids[0], 24, 2)), hn)
+				g.emit("CL deliver %s", showHex(respFor(ids[0], 2)))
+				g.emit("CL tick 100000")
+				g.emit("CL close")
+			}
+		}
+	}
 	// long random histories: many ids, message sizes up to 65535, RTO changes, attempt limits 0..8, close errors
 	nrand := 150
 	if g.tier == "thorough" {
@@ -144,6 +181,37 @@ func (g *gen) clientHist(depth int) {
 			case op < 17:
 				now += []int{1, rto - 1, rto, rto + 1, 2 * rto, 10 * rto}[g.r.intn(6)]
 				g.emit("CL tick %d", now)
+			case op == 17 && g.r.chance(1, 2):
+				// L2: a retransmission's Write blocks while other things happen. Only that transaction is due at the
+				// blocking tick (Collect walks a Go map: with several due the order would be arbitrary): everything
+				// due is handled first, then a fresh transaction with a 1 ns RTO is started
+				now += 12
+				g.emit("CL tick %d", now) // everything else now has a deadline >= now
+				id = g.r.bytes(12)
+				g.emit("CL clock %d", now-10) // the fresh transaction's deadline is now-9
+				g.emit("CL setrto 1")
+				g.emit("CL start %s %s %d", showHex(id), showHex(reqFor(id, 20+g.r.intn(40), byte(k))), hn)
+				hn++
+				g.emit("CL setrto %d", rto)
+				g.emit("CL blockwrite %s", showHex(id))
+				g.emit("CL tick2 %d", now-8)
+				for j := g.r.intn(3); j > 0; j-- {
+					switch g.r.intn(4) {
+					case 0:
+						g.emit("CL deliver %s", showHex(respFor(id, k)))
+					case 1:
+						o := idl[g.r.intn(nid)]
+						g.emit("CL deliver %s", showHex(respFor(o, k)))
+					case 2:
+						o := idl[g.r.intn(nid)]
+						g.emit("CL start %s %s %d", showHex(o), showHex(reqFor(o, 20+g.r.intn(40), byte(k))), hn)
+						hn++
+					default:
+						g.emit("CL clock %d", now-8+g.r.intn(8))
+					}
+				}
+				g.emit("CL release %s", []string{"ok", "fail"}[g.r.intn(2)])
+				g.emit("CL clock %d", now)
 			case op == 17:
 				g.emit("CL failwrite %s", showHex(id))
 			case op == 18:
